@@ -36,3 +36,5 @@ MUTANTS = [
 MUTANTS.append(dict(name='url-path-loses-trailing-slash', file='visit/endpoint/generators/url_args_generator.py', expect='R4.12', old='        return f\'f"{{self.base_url}}{formatted_path}"\'\n', new='        return f\'f"{{self.base_url}}{formatted_path.rstrip("/")}"\'\n'))
 MUTANTS.append(dict(name='overload-impl-url-path-lowercased', file='visit/endpoint/generators/endpoint_method_generator.py', expect='R4.12', old='str(m.group(1)))}}}", op.path\n', new='str(m.group(1)))}}}", op.path.lower()\n'))
 MUTANTS.append(dict(name='overload-impl-dispatches-on-content-type', file='visit/endpoint/generators/endpoint_method_generator.py', expect='R4.13', old='                writer.write_line(f"if {param_info[\'name\']} is not None:")\n', new='                writer.write_line(f"if content_type == {content_type!r}:")\n'))
+MUTANTS.append(dict(name='none-elements-dropped-from-lists', file='core/utils.py', expect='R4.14', old='            The object with None values removed from dicts\n        """\n        if isinstance(obj, dict):\n            return {k: DataclassSerializer._remove_none_values(v) for k, v in obj.items() if v is not None}\n        elif isinstance(obj, list):\n            return [DataclassSerializer._remove_none_values(item) for item in obj]\n', new='            The object with None values removed from dicts and lists\n        """\n        if isinstance(obj, dict):\n            return {k: DataclassSerializer._remove_none_values(v) for k, v in obj.items() if v is not None}\n        elif isinstance(obj, list):\n            return [DataclassSerializer._remove_none_values(item) for item in obj if item is not None]\n'))
+MUTANTS.append(dict(name='private-fields-skipped-in-unstructure-registration', file='core/cattrs_converter.py', expect='R4.15', old='    # Recursively register hooks for nested dataclass fields\n\n    try:\n        type_hints = get_type_hints(cls)\n    except Exception:\n        # If type hints cannot be resolved (e.g. missing imports), fall back to field.type\n        type_hints = {}\n\n    for field in dataclasses.fields(cls):\n', new='    # Recursively register hooks for nested dataclass fields\n\n    try:\n        type_hints = get_type_hints(cls)\n    except Exception:\n        # If type hints cannot be resolved (e.g. missing imports), fall back to field.type\n        type_hints = {}\n\n    for field in dataclasses.fields(cls):\n        # Private storage (the `_data` of generated wrapper types) is written out by the wrapper\'s own hook\n        if field.name.startswith("_"):\n            continue\n\n'))
